@@ -583,6 +583,7 @@ def run(chk):
     _writerpure_rule(chk, prog)
     _opmask_rule(chk, prog)
     _bitsetword_rule(chk, prog)
+    _pegopmask_rule(chk, prog)
 
 
 def _asmrange_rule(chk, prog):
@@ -945,3 +946,64 @@ def _bitsetword_rule(chk, prog):
                               "`%s` reads the closure bitset without selecting the word for the slot at hand: slots 32 and up are "
                               "filtered with the wrong bits, and a captured variable there is dropped from the copied environment" % x.text()[:40])
     chk.floor(rule, 2, n)
+
+
+def _pegopmask_rule(chk, prog):
+    """A PEG operand word may pack flags next to a number (the width of (int n) carries the signedness and endianness
+    bits).  The matcher masks before it uses the number; the image verifier has to apply the same mask before it
+    compares the number with its limit, or it rejects what the compiler emits: (unmarshal (marshal (peg/compile
+    '(int 2)))) raised `invalid peg bytecode`."""
+    rule = "C09-PEGOPMASK"
+    chk.rule(rule, "where the PEG matcher masks an operand word before using it as a number, the image verifier compares the masked value, not the whole word")
+    from jv.util import switch_cases, case_name, case_map
+    full = Program.load("default", units=["peg.c"])
+    tu = full.tus["peg.c"]
+    m = next((f for f in tu.funcs.values() if f.name == "peg_rule"), None)
+    v = next((f for f in tu.funcs.values() if f.name == "peg_unmarshal"), None)
+    if m is None or v is None:
+        raise AnalysisBroken("peg_rule / peg_unmarshal not found")
+    chk.analysed(m)
+    chk.analysed(v)
+
+    def arms(fn):
+        sw = [x for x in fn.nodes if x.k == "switch"]
+        out = {}
+        for s_ in sw:
+            cm = case_map(s_)
+            for nid, labs in cm.items():
+                for lab in labs:
+                    out.setdefault(lab, []).append(fn.nodes[nid])
+        return out
+    ma, va = arms(m), arms(v)
+    n = 0
+    for lab in sorted(set(ma) & set(va)):
+        if not lab.startswith("RULE_"):
+            continue
+        # operands the matcher masks with a constant before use: rule[k] & C
+        masked = {}
+        for x in ma[lab]:
+            for y in x.walk():
+                if y.k == "bin" and y.op == "&" and strip_casts(y.kids[0]).k == "sub" and strip_casts(y.kids[1]).k == "int":
+                    sb = strip_casts(y.kids[0])
+                    if is_ref(strip_casts(sb.kids[0]), "rule") and strip_casts(sb.kids[1]).k == "int":
+                        masked.setdefault(strip_casts(sb.kids[1]).v, set()).add(strip_casts(y.kids[1]).v)
+        for k, masks in sorted(masked.items()):
+            if len(masks) < 2:
+                continue                    # a single mask is a plain truncation, not packed fields
+            n += 1
+            chk.instance(rule)
+            whole = None
+            for x in va[lab]:
+                for y in x.walk():
+                    if y.k == "bin" and y.op in (">", ">=", "<", "<=") and any(
+                            strip_casts(kid).k == "sub" and is_ref(strip_casts(strip_casts(kid).kids[0]), "rule") and strip_casts(strip_casts(kid).kids[1]).v == k
+                            for kid in y.kids):
+                        whole = y
+            if whole is None:
+                chk.ok(rule, "%s: operand %d is compared only after masking" % (lab, k))
+            else:
+                chk.violation(rule, "peg.c", "peg_unmarshal", "%s:operand%d" % (lab, k), whole.loc,
+                              "`%s` compares the whole operand word of %s, which the matcher takes apart with the masks %s: every "
+                              "value of the flag bits makes the word exceed the limit and a grammar the compiler produced is refused "
+                              "when its image is read back" % (whole.text()[:50], lab, sorted(hex(mm) for mm in masks)))
+    chk.floor(rule, 1, n)
